@@ -7,6 +7,7 @@ import (
 	"fmt"
 	"os"
 	"path/filepath"
+	"strings"
 )
 
 var stepStubs = []string{"harness bus Get/Set/In/Out (SMT array + trace, In returns an unconstrained byte)", "log.Printf (no effect, recorded as warning)", "math/bits.OnesCount8 (sum of bits)"}
@@ -270,7 +271,25 @@ func init() {
 			c.Extra["package_vars_written_by_Step"] = sortedKeys(w)
 			c.Extra["package_vars_read_by_Step"] = sortedKeys(rd)
 			for g := range w {
-				c.structural("global-write/"+g, "a path of CPU.Step writes package-level variable "+g+": two CPUs on different goroutines would share (and race on) it")
+				detail := "a path of CPU.Step writes package-level variable " + g + ": two CPUs on different goroutines would share (and race on) it"
+				// try to confirm natively: the same encoding stepped by four goroutines under -race
+				for _, jr := range c.Results {
+					if jr.GlobalW[g] && jr.Job.Harness == "VC10" {
+						rf := &ReplayFile{Dir: "z80", Harness: "VC10Concurrent", Params: jr.Job.Params, Vals: map[string]uint64{}, Arrays: map[string]ReplayAr{}, Failed: []string{"norace"}, Detail: detail}
+						path, err := writeReplay(rf, c.P.ID, "global-write-native/"+g)
+						if err != nil {
+							break
+						}
+						_, out, _ := c.L.RunNative("z80", []string{path}, true)
+						if strings.Contains(out, "DATA RACE") {
+							detail += " — confirmed natively: go test -race reports a data race when four CPUs step " + Enc{jr.Job.Params[0], jr.Job.Params[1]}.String() + " concurrently (" + path + ")"
+						} else {
+							detail += " — native -race run of " + Enc{jr.Job.Params[0], jr.Job.Params[1]}.String() + " on four goroutines did not report a race (footprint finding stands on the SSA paths)"
+						}
+						break
+					}
+				}
+				c.structural("global-write/"+g, detail)
 			}
 		},
 		Bounds:  map[string]interface{}{"steps": 1, "opcode_bytes": "concrete, all 1786 leaf encodings", "hidden": "every field of CPU other than States/Memory/IO/Interrupt/handlers is havocked independently in the two copies (taken from the type, so fields added later are included)"},
